@@ -53,6 +53,7 @@ func runSeq(cs *Case, or seqOracles) (w *World) {
 	w.prefill(w.primary, cs.Cfg.Prefill)
 	prefillModel(w.model, cs.Cfg.Prefill)
 	w.tap.Commits = nil
+	w.tap.failAt, w.tap.failOnce = cs.Cfg.Params["stream_fail_at"], cs.Cfg.Params["stream_fail_once"] == 1
 	if or.stream {
 		rng := NewRng(cs.Seed, uint64(cs.Run), 83)
 		w.tap.onAppend = func(tc *TapCommit, c commit.Commit) {
